@@ -42,6 +42,8 @@ type LookupGen struct {
 	Hot []glyph.ID
 	// CtxFormat forces the format (1..3) of contextual subtables; 0 = tape.
 	CtxFormat int
+	// Types, if set, restricts the lookup types Info chooses from.
+	Types []uint16
 }
 
 func (g *LookupGen) gid() glyph.ID {
@@ -495,6 +497,9 @@ func (g *LookupGen) Info(gsub bool) *gtab.Info {
 	if !gsub {
 		types = []uint16{1, 2, 4, 6, 7, 8}
 	}
+	if len(g.Types) > 0 {
+		types = g.Types
+	}
 	for i := 0; i < nl; i++ {
 		tp := types[t.Draw(len(types))]
 		fl, set := g.flags()
@@ -943,4 +948,148 @@ func NormalPairs(ll gtab.LookupList) gtab.LookupList {
 		res[i] = &cp
 	}
 	return res
+}
+
+// NestedMergeGsub builds a GSUB table around one contextual rule whose nested
+// actions change the length of the sequence under other lookup flags than
+// the rule's own: the rule ignores marks, its actions are ligatures that
+// swallow marks or following bases, expansions, or two-glyph contexts.  The
+// glyphs are few (bases 1..6, marks 8..10) so that generated sequences hit
+// the rule, often at their very end.  It returns the table, the GDEF table
+// that makes 8..10 marks, the number of glyphs, and glyph sequences derived
+// from the rule: its input, followed by what a first ligature action needs
+// and by all but the last component of what a second one would need - text
+// that ends in the middle of a match.
+func NestedMergeGsub(t *tape.Tape) (*gtab.Info, *gdef.Table, int, [][]glyph.ID) {
+	const n = 12
+	base := func() glyph.ID { return glyph.ID(1 + t.Draw(6)) }
+	mark := func() glyph.ID { return glyph.ID(8 + t.Draw(3)) }
+	gd := &gdef.Table{GlyphClass: classdef.Table{}}
+	for g := 1; g <= 6; g++ {
+		gd.GlyphClass[glyph.ID(g)] = gdef.GlyphClassBase
+	}
+	for g := 8; g <= 10; g++ {
+		gd.GlyphClass[glyph.ID(g)] = gdef.GlyphClassMark
+	}
+	flagsOf := func(w ...int) gtab.LookupFlags {
+		return []gtab.LookupFlags{gtab.IgnoreMarks, 0, gtab.IgnoreBaseGlyphs, gtab.IgnoreLigatures}[t.Weighted(w...)]
+	}
+	input := []glyph.ID{base(), base()}
+	if t.Chance(1, 3) {
+		input = append(input, base())
+	}
+	var actions []gtab.SeqLookup
+	for i := t.Range(2, 3); i > 0; i-- {
+		actions = append(actions, gtab.SeqLookup{SequenceIndex: uint16(t.Draw(len(input))), LookupListIndex: gtab.LookupIndex(1 + t.Draw(3))})
+	}
+	var ctx gtab.Subtable
+	switch t.Draw(3) {
+	case 0:
+		ctx = &gtab.SeqContext1{Cov: coverage.Table{input[0]: 0}, Rules: [][]*gtab.SeqRule{{{Input: input[1:], Actions: actions}}}}
+	case 1:
+		s := &gtab.SeqContext3{Actions: actions}
+		for _, g := range input {
+			s.Input = append(s.Input, coverage.Set{g: true})
+		}
+		ctx = s
+	default:
+		s := &gtab.ChainedSeqContext3{Actions: actions}
+		for _, g := range input {
+			s.Input = append(s.Input, coverage.Set{g: true})
+		}
+		if t.Chance(1, 2) {
+			s.Lookahead = []coverage.Set{{base(): true, mark(): true}}
+		}
+		ctx = s
+	}
+	tp := uint16(5)
+	if _, chained := ctx.(*gtab.ChainedSeqContext3); chained {
+		tp = 6
+	}
+	info := &gtab.Info{}
+	add := func(tp uint16, fl gtab.LookupFlags, st gtab.Subtable) {
+		info.LookupList = append(info.LookupList, &gtab.LookupTable{Meta: &gtab.LookupMetaInfo{LookupType: tp, LookupFlags: fl}, Subtables: []gtab.Subtable{st}})
+	}
+	add(tp, flagsOf(6, 1, 1, 1), ctx)
+	// a ligature lookup under other flags: an input glyph swallows what
+	// follows it; a second one continues from the results of the first and
+	// asks for more components than may be left
+	var outs []glyph.ID
+	lig := func(firstsIn []glyph.ID, minComp, maxComp int) gtab.Subtable {
+		s := &gtab.Gsub4_1{Cov: coverage.Table{}}
+		firsts := map[glyph.ID]bool{}
+		for _, g := range firstsIn {
+			firsts[g] = true
+		}
+		var sorted []glyph.ID
+		for g := range firsts {
+			sorted = append(sorted, g)
+		}
+		sort.Slice(sorted, func(i, j int) bool { return sorted[i] < sorted[j] })
+		for i, g := range sorted {
+			s.Cov[g] = i
+			var ligs []gtab.Ligature
+			for k := t.Range(1, 2); k > 0; k-- {
+				var comp []glyph.ID
+				for j := t.Range(minComp, maxComp); j > 0; j-- {
+					if t.Chance(1, 4) {
+						comp = append(comp, base())
+					} else {
+						comp = append(comp, mark())
+					}
+				}
+				out := base()
+				outs = append(outs, out)
+				ligs = append(ligs, gtab.Ligature{In: comp, Out: out})
+			}
+			s.Repl = append(s.Repl, ligs)
+		}
+		return s
+	}
+	add(4, flagsOf(1, 6, 1, 1), lig(input, 1, 2))
+	switch t.Draw(3) {
+	case 0:
+		add(4, flagsOf(2, 3, 1, 1), lig(append(append([]glyph.ID(nil), outs...), input...), 1, 3))
+	case 1:
+		g0 := input[t.Draw(len(input))]
+		repl := []glyph.ID{base(), mark(), base()}[:t.Range(2, 3)]
+		add(2, flagsOf(2, 3, 1, 1), &gtab.Gsub2_1{Cov: coverage.Table{g0: 0}, Repl: [][]glyph.ID{repl}})
+	default:
+		g0 := input[t.Draw(len(input))]
+		add(5, flagsOf(2, 3, 1, 1), &gtab.SeqContext1{Cov: coverage.Table{g0: 0}, Rules: [][]*gtab.SeqRule{{{Input: []glyph.ID{mark()}, Actions: []gtab.SeqLookup{{SequenceIndex: uint16(t.Draw(2)), LookupListIndex: 3}}}}}})
+	}
+	gg := []glyph.ID{1, 2, 3, 4, 5, 6, 8, 9, 10}
+	sub := &gtab.Gsub1_2{Cov: coverage.Table{}}
+	for i, g := range gg {
+		sub.Cov[g] = i
+		sub.SubstituteGlyphIDs = append(sub.SubstituteGlyphIDs, glyph.ID(1+t.Draw(n-1)))
+	}
+	add(1, 0, sub)
+	info.FeatureList = gtab.FeatureListInfo{{Tag: "test", Lookups: []gtab.LookupIndex{0}}}
+	info.ScriptList = gtab.ScriptListInfo{language.MustParse("und-Zzzz"): {Required: 0}}
+	// sequences that follow the rule
+	var seqs [][]glyph.ID
+	l1, _ := info.LookupList[1].Subtables[0].(*gtab.Gsub4_1)
+	l2, _ := info.LookupList[2].Subtables[0].(*gtab.Gsub4_1)
+	for k := 0; k < 6 && l1 != nil; k++ {
+		seq := append([]glyph.ID(nil), input...)
+		last := input[len(input)-1]
+		idx, ok := l1.Cov[last]
+		if !ok || len(l1.Repl[idx]) == 0 {
+			break
+		}
+		lg := l1.Repl[idx][t.Draw(len(l1.Repl[idx]))]
+		seq = append(seq, lg.In...)
+		if l2 != nil {
+			if j, ok := l2.Cov[lg.Out]; ok && len(l2.Repl[j]) > 0 {
+				more := l2.Repl[j][t.Draw(len(l2.Repl[j]))].In
+				seq = append(seq, more[:t.Draw(len(more)+1)]...)
+			}
+		}
+		if t.Chance(1, 3) {
+			seq = append([]glyph.ID{base()}, seq...)
+		}
+		seqs = append(seqs, seq)
+	}
+	return info, gd, n, seqs
 }
